@@ -535,7 +535,7 @@ pub fn run_proc(ctx: &mut Ctx, c: &Corpus, verif: &str) -> Vec<Replay> {
     let mut out = Vec::new();
     let jd = hex128(job.digest());
     ctx.stats.inc("jobs");
-    let base_plan = ProcPlan { job: job.clone(), faults: vec![], keys: keys.clone(), clock: None, scratch_tag: String::new() };
+    let base_plan = ProcPlan { job: job.clone(), faults: vec![], keys: keys.clone(), clock: None, scratch_tag: String::new(), env: vec![] };
     let base = ctx.exec_proc(&base_plan, "C03", verif);
     if let Some(why) = &base.skipped {
         ctx.stats.inc(&format!("skipped:{}", why));
@@ -622,7 +622,7 @@ pub fn run_proc(ctx: &mut Ctx, c: &Corpus, verif: &str) -> Vec<Replay> {
     }
     ctx.stats.add("fault_space_total", space.len() as u64);
     for f in space {
-        let plan = ProcPlan { job: job.clone(), faults: vec![f.clone()], keys: keys.clone(), clock: None, scratch_tag: String::new() };
+        let plan = ProcPlan { job: job.clone(), faults: vec![f.clone()], keys: keys.clone(), clock: None, scratch_tag: String::new(), env: vec![] };
         let rec = ctx.exec_proc(&plan, "C03", verif);
         ctx.stats.inc("evaluations");
         ctx.stats.inc(&format!("fault_configured_{}", f.kind));
